@@ -567,4 +567,125 @@ theorem modeDists_perfect {P : Params} (h : isPerfect P = true) (θ : ℚ) (ns :
     have hs : shortcut P n = true := by simp [shortcut, h]
     simp only [modeDists, probDist, probDistTag, hs, if_true, ih, List.map_cons]
 
+/-! ### H. the event table: four-term multinomial theorem over the nested `range` loops -/
+
+theorem sum_list_range (f : ℕ → ℚ) (n : ℕ) :
+    ((List.range n).map f).sum = ∑ i ∈ Finset.range n, f i := by
+  induction n with
+  | zero => simp
+  | succ n ih => rw [List.sum_range_succ, Finset.sum_range_succ, ih]
+
+/-- the three loops as nested finite sums (ranges with the truthiness quirks) -/
+theorem E_tableRawOf (g : ℕ × ℕ × ℕ → ℚ) (a b c z : ℚ) (n f : ℕ) :
+    E g (tableRawOf a b c z n f) =
+      ∑ i ∈ Finset.range (n + 1), ∑ j ∈ Finset.range (if b = 0 then 1 else n + 1 - i),
+        ∑ k ∈ Finset.range (if c = 0 then 1 else n + 1 - i - j),
+          if f ≤ i + j + 2 * k then coef a b c z n i j k * g (i, j, k) else 0 := by
+  simp only [tableRawOf, E_flatMap, sum_list_range]
+  refine Finset.sum_congr rfl fun i _ => Finset.sum_congr rfl fun j _ =>
+    Finset.sum_congr rfl fun k _ => ?_
+  split <;> simp [E]
+
+theorem sum_range_quirk (F : ℕ → ℚ) (x : ℚ) (m : ℕ) (hm : 0 < m)
+    (h : x = 0 → ∀ j, 0 < j → F j = 0) :
+    ∑ j ∈ Finset.range (if x = 0 then 1 else m), F j = ∑ j ∈ Finset.range m, F j := by
+  split
+  · next hx =>
+    rw [Finset.sum_range_one, Finset.sum_eq_single_of_mem 0 (Finset.mem_range.mpr hm)]
+    intro j _ hj
+    exact h hx j (Nat.pos_of_ne_zero hj)
+  · rfl
+
+theorem coef_b_zero (a c z : ℚ) (n i j k : ℕ) (hj : 0 < j) : coef a 0 c z n i j k = 0 := by
+  simp [coef, zero_pow (Nat.pos_iff_ne_zero.mp hj)]
+
+theorem coef_c_zero (a b z : ℚ) (n i j k : ℕ) (hk : 0 < k) : coef a b 0 z n i j k = 0 := by
+  simp [coef, zero_pow (Nat.pos_iff_ne_zero.mp hk)]
+
+/-- the truthiness short-cuts of the loops drop only terms that are zero -/
+theorem E_tableRawOf_full (g : ℕ × ℕ × ℕ → ℚ) (a b c z : ℚ) (n f : ℕ) :
+    E g (tableRawOf a b c z n f) =
+      ∑ i ∈ Finset.range (n + 1), ∑ j ∈ Finset.range (n + 1 - i),
+        ∑ k ∈ Finset.range (n + 1 - i - j),
+          if f ≤ i + j + 2 * k then coef a b c z n i j k * g (i, j, k) else 0 := by
+  rw [E_tableRawOf]
+  refine Finset.sum_congr rfl fun i hi => ?_
+  have hi' : 0 < n + 1 - i := Nat.sub_pos_of_lt (Finset.mem_range.mp hi)
+  rw [sum_range_quirk _ b (n + 1 - i) hi']
+  · refine Finset.sum_congr rfl fun j hj => ?_
+    have hj' : 0 < n + 1 - i - j := Nat.sub_pos_of_lt (Finset.mem_range.mp hj)
+    rw [sum_range_quirk _ c (n + 1 - i - j) hj']
+    intro hc k hk
+    subst hc
+    simp [coef_c_zero _ _ _ _ _ _ _ hk]
+  · intro hb j hj
+    subst hb
+    apply Finset.sum_eq_zero
+    intro k _
+    simp [coef_b_zero _ _ _ _ _ _ _ hj]
+
+theorem coef_eq_choose (a b c z : ℚ) {n i j k : ℕ} (hi : i ≤ n) (hj : j ≤ n - i)
+    (hk : k ≤ n - i - j) :
+    coef a b c z n i j k =
+      a ^ i * (n.choose i : ℚ) * (b ^ j * ((n - i).choose j : ℚ) *
+        (c ^ k * z ^ (n - i - j - k) * ((n - i - j).choose k : ℚ))) := by
+  unfold coef
+  rw [Nat.cast_choose ℚ hi, Nat.cast_choose ℚ hj, Nat.cast_choose ℚ hk]
+  have h1 : ((n - i).factorial : ℚ) ≠ 0 := Nat.cast_ne_zero.mpr (Nat.factorial_ne_zero _)
+  have h2 : ((n - i - j).factorial : ℚ) ≠ 0 := Nat.cast_ne_zero.mpr (Nat.factorial_ne_zero _)
+  have h3 : ((n - i - j - k).factorial : ℚ) ≠ 0 := Nat.cast_ne_zero.mpr (Nat.factorial_ne_zero _)
+  have h4 : (i.factorial : ℚ) ≠ 0 := Nat.cast_ne_zero.mpr (Nat.factorial_ne_zero _)
+  have h5 : (j.factorial : ℚ) ≠ 0 := Nat.cast_ne_zero.mpr (Nat.factorial_ne_zero _)
+  have h6 : (k.factorial : ℚ) ≠ 0 := Nat.cast_ne_zero.mpr (Nat.factorial_ne_zero _)
+  field_simp
+
+/-- four-term multinomial theorem in the shape of the loops -/
+theorem multinomial4 (a b c z : ℚ) (n : ℕ) :
+    ∑ i ∈ Finset.range (n + 1), ∑ j ∈ Finset.range (n + 1 - i),
+      ∑ k ∈ Finset.range (n + 1 - i - j), coef a b c z n i j k = (a + b + c + z) ^ n := by
+  have hk : ∀ i j, i ≤ n → j ≤ n - i →
+      ∑ k ∈ Finset.range (n + 1 - i - j), coef a b c z n i j k =
+        a ^ i * (n.choose i : ℚ) * (b ^ j * ((n - i).choose j : ℚ) * (c + z) ^ (n - i - j)) := by
+    intro i j hi hj
+    rw [show n + 1 - i - j = (n - i - j) + 1 by omega, add_pow c z, Finset.mul_sum, Finset.mul_sum]
+    refine Finset.sum_congr rfl fun k hk => ?_
+    rw [coef_eq_choose a b c z hi hj (Nat.lt_succ_iff.mp (Finset.mem_range.mp hk))]
+  have hj : ∀ i, i ≤ n →
+      ∑ j ∈ Finset.range (n + 1 - i), ∑ k ∈ Finset.range (n + 1 - i - j), coef a b c z n i j k =
+        a ^ i * (n.choose i : ℚ) * (b + (c + z)) ^ (n - i) := by
+    intro i hi
+    rw [show n + 1 - i = (n - i) + 1 by omega, add_pow b (c + z), Finset.mul_sum]
+    refine Finset.sum_congr rfl fun j hj => ?_
+    have hj' : j ≤ n - i := Nat.lt_succ_iff.mp (Finset.mem_range.mp hj)
+    rw [show n - i + 1 - j = n + 1 - i - j by omega, hk i j hi hj']
+    ring
+  rw [show a + b + c + z = a + (b + (c + z)) by ring, add_pow a]
+  refine Finset.sum_congr rfl fun i hi => ?_
+  rw [hj i (Nat.lt_succ_iff.mp (Finset.mem_range.mp hi))]
+  ring
+
+theorem coef_weight (a b c z u v w : ℚ) (n i j k : ℕ) :
+    coef a b c z n i j k * (u ^ i * v ^ j * w ^ k) = coef (a * u) (b * v) (c * w) z n i j k := by
+  unfold coef
+  rw [mul_pow, mul_pow, mul_pow]
+  ring
+
+/-- generating function of the unfiltered event table -/
+theorem E_tableRawOf_weight (a b c z u v w : ℚ) (n : ℕ) :
+    E (fun e => u ^ e.1 * v ^ e.2.1 * w ^ e.2.2) (tableRawOf a b c z n 0) =
+      (a * u + b * v + c * w + z) ^ n := by
+  rw [E_tableRawOf_full, ← multinomial4]
+  refine Finset.sum_congr rfl fun i _ => Finset.sum_congr rfl fun j _ =>
+    Finset.sum_congr rfl fun k _ => ?_
+  simp only [Nat.zero_le, if_true]
+  exact coef_weight a b c z u v w n i j k
+
+/-- the filter test commutes with the loops: the filtered table is the restriction of the full one -/
+theorem tableRawOf_filter (a b c z : ℚ) (n f : ℕ) :
+    tableRawOf a b c z n f =
+      (tableRawOf a b c z n 0).filter fun e => decide (f ≤ e.1.1 + e.1.2.1 + 2 * e.1.2.2) := by
+  simp only [tableRawOf, List.filter_flatMap, Nat.zero_le, if_true]
+  refine List.flatMap_congr fun i _ => List.flatMap_congr fun j _ => List.flatMap_congr fun k _ => ?_
+  by_cases h : f ≤ i + j + 2 * k <;> simp [h]
+
 end PM.C06
